@@ -72,6 +72,9 @@ func genC09b(t *rapid.T) c09bCase {
 	if rapid.Bool().Draw(t, "wider") {
 		c.WinMax += int64(rapid.IntRange(0, 400).Draw(t, "wmaxd")) * 1e6
 	}
+	if rapid.IntRange(0, 7).Draw(t, "unboundedMax") == 0 {
+		c.WinMax = rapid.SampledFrom([]int64{math.MaxInt64, math.MaxInt64 - 1, 1 << 62}).Draw(t, "hugeMax") // "no upper bound on the window"
+	}
 	n := rapid.IntRange(1, 80).Draw(t, "n")
 	start := int64(rapid.IntRange(0, 1000).Draw(t, "t0"))
 	dropPct := rapid.SampledFrom([]int{0, 10, 10, 30, 30, 60, 100}).Draw(t, "droppct")
